@@ -174,6 +174,8 @@ def run_selection(run, case, p, R, unit, delta, rel_tol, all_pairs, exact, via):
     from evo.core.filters import FilterException
     poses = poses_from(p, R)
     n = len(poses)
+    if (len(p) + int(delta * 7)) % 5 == 0:
+        poses = np.stack(poses)  # the pose sequence handed over as one N x 4 x 4 array
     snapshot = [P.copy() for P in poses]
     U = {"f": Unit.frames, "m": Unit.meters, "r": Unit.radians, "d": Unit.degrees}[unit]
     with core.quiet():
